@@ -214,7 +214,7 @@ var c07PanicAllow = map[string]string{
 
 var c07AssertAllow = map[string]string{
 	"assert .(*debuglog.defaultEvent) in debuglog.(defaultLogger).With": "ContextField closures are only created by this package and return the event they received",
-	"assert .(*coraza.wafConfig) in .NewWAF":                             "WAFConfig values are produced by NewWAFConfig; a foreign implementation is API misuse by the embedding program, not configuration text or traffic",
+	"assert .(*coraza.wafConfig) in .NewWAF":                            "WAFConfig values are produced by NewWAFConfig; a foreign implementation is API misuse by the embedding program, not configuration text or traffic",
 }
 
 // c07Optional: A7a contradiction rule.
